@@ -32,6 +32,27 @@ Theorem C03_room_listeners_same_room : forall h k x, In x (room_listeners h k) <
   exists s, In (x, s) h.(h_sessions) /\ is_virtual s.(s_kind) = false /\ s.(s_room) = Some k.
 Proof. exact room_listener_spec. Qed.
 
+(* The dial-out request of the room API ("call this number into the room"): Hub.GetDialoutSession hands it to a
+   dial-out client (internal client with feature start-dialout, in no room) of THE REQUEST'S backend.  For every
+   state satisfying the tenancy invariants (every reachable state does, C03_invariants_every_history), whoever
+   signed the request, whatever room and number: every message it causes is the request itself, written to a
+   connection of a session of backend b; no session of another backend changes, appears or disappears; and when
+   b has no connected dial-out client - whatever clients other backends have - nothing happens at all. *)
+Theorem C03_dialout_reaches_own_backend : forall h b signas room ok, TI h ->
+  let r := step h (OApi b signas room (ADialout ok)) in
+  (forall c m, In (ToConn c m) (snd r) -> m = SDialout room /\ bconn b h c) /\
+  (forall sid s, s_backend s <> b -> get_sess h sid = Some s \/ get_sess (fst r) sid = Some s ->
+     get_sess (fst r) sid = get_sess h sid) /\
+  ((forall sid s, In sid (h_dialout h) -> get_sess h sid = Some s -> s_backend s = b -> s_conn s = None) -> r = (h, [])).
+Proof. exact dialout_own_backend. Qed.
+Theorem C03_dialout_two_tenants :
+  let h := qrun (init [0; 0] false) [OConnect 1 0; OConnect 2 0; OHello 1 (HInternal 0 0 false true)] in
+  snd (qstep h (OApi 1 1 5 (ADialout true))) = [] /\
+  snd (qstep h (OApi 0 0 5 (ADialout true))) = [ToConn 1 (SDialout 5)] /\
+  snd (qstep h (OApi 0 0 5 (ADialout false))) = [] /\
+  snd (qstep (fst (qstep h (OHello 2 (HInternal 1 0 false true)))) (OApi 1 1 5 (ADialout true))) = [ToConn 2 (SDialout 5)].
+Proof. exact dialout_two_tenants. Qed.
+
 (* The full statement (P_C03 on every history) is refuted by the code as it is: the map from
    Nextcloud session ids to sessions is shared by all backends (known findings
    C03/room-session-map/global-kick and .../global-api); the witnesses are replayed on the
@@ -114,6 +135,8 @@ Print Assumptions C03_room_subject_is_per_backend.
 Print Assumptions C03_user_subject_is_per_backend.
 Print Assumptions C03_user_listeners_same_backend.
 Print Assumptions C03_room_listeners_same_room.
+Print Assumptions C03_dialout_reaches_own_backend.
+Print Assumptions C03_dialout_two_tenants.
 Print Assumptions C03_isolation_refuted_kick.
 Print Assumptions C03_isolation_refuted_api.
 Print Assumptions C03_invariants_every_history.
